@@ -13,6 +13,7 @@ import (
 	"time"
 
 	"github.com/rqlite/rqlite/v10/command/proto"
+	"github.com/rqlite/rqlite/v10/vexport"
 	"verif/internal/hcluster"
 	"verif/internal/vf"
 )
@@ -69,6 +70,9 @@ func genOps(c *vf.Ctx, caseNo int) []string {
 		// long runs of entries that never reach the FSM, with no write, strong read
 		// or leader change in between
 		{"lin", "barrier", "barrier", "barrier", "barrier", "barrier", "barrier", "barrier"},
+		// the read has to wait for an entry that is committed, not yet applied and
+		// does not change the database
+		{"write", "lin", "inflight-strong"},
 		{"strong", "join-nonvoter", "barrier", "remove", "barrier", "barrier", "join-nonvoter", "barrier", "remove"},
 		{"lin", "join-voter", "join-nonvoter", "barrier", "remove", "barrier", "remove", "barrier", "barrier"},
 	}
@@ -79,14 +83,14 @@ func genOps(c *vf.Ctx, caseNo int) []string {
 }
 
 func run(c *vf.Ctx) {
-	c.Rule("history = seeded sequence of 2-7 ops (every third history followed by one of 9 directed motifs: a read that pins the term, then 1-8 consecutive entries that never reach the FSM - barriers, joins, removals - some followed by a log-truncating snapshot) from {write, strong read, linearizable read, join voter/non-voter, remove, stepdown, barrier, user snapshot, user snapshot truncating the log to 1-2 trailing entries, noop, log truncation + snapshot install on a new voter + leadership transfer to it} on a fresh healthy in-process cluster (1 node, growing to at most 3), followed by 3 linearizable reads 50 ms apart over HTTP on the current leader with the default timeout and no write in between; thorough also probes after every prefix. non-trivial = history whose last committed entry before the reads is not a plain write; distinct by op sequence")
+	c.Rule("history = seeded sequence of 2-7 ops (every third history followed by one of 10 directed motifs: a read that pins the term, then 1-8 consecutive entries that never reach the FSM - barriers, joins, removals - some followed by a log-truncating snapshot) from {write, strong read, linearizable read, join voter/non-voter, remove, stepdown, barrier, user snapshot, user snapshot truncating the log to 1-2 trailing entries, noop, log truncation + snapshot install on a new voter + leadership transfer to it} on a fresh healthy in-process cluster (1 node, growing to at most 3), followed by 3 linearizable reads 50 ms apart over HTTP on the current leader with the default timeout and no write in between; thorough also probes after every prefix. non-trivial = history whose last committed entry before the reads is not a plain write; distinct by op sequence")
 	c.Assume("healthy network (faultnet with no faults); reads go to the node that reports itself leader")
 	c.Assume("a read failing with 'not leader' right after a stepdown is retried on the new leader (leadership moved, not a C38 failure)")
 	if c.ReplayFile != "" {
 		replay(c)
 		return
 	}
-	nHist := c.N(27, 400)
+	nHist := c.N(30, 400)
 	workers := 8
 	per := (nHist + workers - 1) / workers
 	type job struct{ lo, hi int }
@@ -330,6 +334,21 @@ func runHistory(caseNo int, ops []string, dir string) (res histResult) {
 				continue // no suitable target: not part of the property
 			}
 			lastKind = "leader-change"
+		case "inflight-strong":
+			// A command that does not change the database (a strong read) is committed
+			// but still waiting to be applied - applies are slowed through the
+			// fsm.apply.entry hook - when the linearizable reads that follow arrive:
+			// they have to wait for exactly that entry and be woken by it.
+			vexport.HookSetDelay("fsm.apply.entry", 700*time.Millisecond)
+			defer vexport.HookSetDelay("fsm.apply.entry", 0)
+			bg := make(chan struct{})
+			go func(n *hcluster.Node) {
+				defer close(bg)
+				cl.Do(n, "GET", "/db/query?level=strong&q="+url.QueryEscape("SELECT COUNT(*) FROM t"), nil, nil)
+			}(l)
+			defer func() { <-bg }()
+			time.Sleep(200 * time.Millisecond)
+			lastKind = "inflight-strong-read"
 		case "barrier":
 			if err := l.Store.Barrier(); err != nil {
 				return fail("barrier: %v", err)
